@@ -7,9 +7,14 @@ import json
 
 class Facts:
     def __init__(self, doc):
-        from .normalize import canonicalize_generics, transparent_helpers
+        from .normalize import (canonicalize_generics, transparent_helpers, canonical_apis, expand_combinators, eliminate_try,
+                                thread_known_discriminants)
         doc = canonicalize_generics(doc)
         doc = transparent_helpers(doc)
+        doc = canonical_apis(doc)
+        doc = expand_combinators(doc)
+        doc = eliminate_try(doc)
+        doc = thread_known_discriminants(doc)
         self.doc = doc
         self.meta = doc['meta']
         self.bodies = {}
